@@ -104,8 +104,8 @@ func runCase(phase string, i int) worker.Result {
 	depth := []int{0, 0, 0, 1, 2, 3}[rng.IntN(6)]
 	choicesNoMeta := []string{"sbom", "sig", "example", "config", "artifact"}
 	fsel := rng.IntN(5)
-	if remote && rng.IntN(2) == 0 {
-		fsel = 2 // annotation filters over (possibly paged) referrers listings
+	if (remote || kind == "oci-reopen-rw") && rng.IntN(2) == 0 {
+		fsel = 2 // annotation filters over (possibly paged) referrers listings, or over a reopened and collected layout
 	}
 	switch fsel {
 	case 0, 1:
@@ -128,7 +128,7 @@ func runCase(phase string, i int) worker.Result {
 				f.Regex = "a" // broad: matches spread over every page of a listing
 			}
 		}
-		if remote && rng.IntN(5) < 2 {
+		if (remote || kind == "oci-reopen-rw") && rng.IntN(5) < 2 {
 			// a key that every annotated manifest carries (about half of all): matches on every page
 			f.Key, f.NoRe, f.Regex = "org.test.salt", rng.IntN(2) == 0, ""
 			if !f.NoRe {
@@ -256,6 +256,10 @@ func runCase(phase string, i int) worker.Result {
 		return res
 	}
 	cleanup = append(cleanup, sh.Close)
+	if sh.File != nil && rng.IntN(3) == 0 {
+		sh.File.ForceCAS = true // a file store that keeps every blob in its fallback CAS still has to index it
+		res.Count("file_sources_with_ForceCAS", 1)
+	}
 	order := g.TopoChildrenFirst()
 	if !remote { // registries refuse manifests whose blobs are missing; the other stores take any order
 		rng.Shuffle(len(order), func(a, b int) { order[a], order[b] = order[b], order[a] })
@@ -314,11 +318,50 @@ func runCase(phase string, i int) worker.Result {
 			}
 		}
 	}
+	// reference forms for ExtendedCopy: tag -> tag, tag -> blank (= source reference), digest -> blank, tag -> digest
+	srcRef, dstRef := "start-tag", "copied-tag"
 	if api == "ExtendedCopy" {
+		startDigest := g.Nodes[start].Desc.Digest.String()
+		// a digest names the start node only if it is a manifest (a store resolves a blob's digest
+		// to a generic media type) and no twin shares its bytes
+		digestOK := g.Nodes[start].Kind.IsManifestKind()
+		for _, nd := range g.Nodes {
+			if nd.ID != start && nd.Desc.Digest == g.Nodes[start].Desc.Digest {
+				digestOK = false
+			}
+		}
+		switch v := rng.IntN(6); {
+		case v == 0:
+			dstRef = ""
+		case v == 1 && digestOK:
+			srcRef, dstRef = startDigest, ""
+		case v == 2:
+			dstRef = startDigest
+		}
 		if err := sh.Target.Tag(ctx, g.Nodes[start].Desc, "start-tag"); err != nil {
 			res.Violate("harness:populate", fmt.Sprintf("tag start node: %v", err), nil)
 			return res
 		}
+		if srcRef == startDigest && !remote && sh.OCI == nil {
+			// memory and file stores resolve a digest only when it was given as a reference
+			if err := sh.Target.Tag(ctx, g.Nodes[start].Desc, startDigest); err != nil {
+				res.Violate("harness:populate", fmt.Sprintf("tag start node by digest: %v", err), nil)
+				return res
+			}
+		}
+		res.Observe("extendedcopy_reference_forms", fmt.Sprintf("src-digest=%v/dst-blank=%v/dst-digest=%v", srcRef == startDigest, dstRef == "", dstRef == startDigest))
+	}
+	// OCI layouts: every root carries a tag (so that a later GC keeps the whole graph and the
+	// reopened store hands out descriptors with a ref-name annotation)
+	tagRoots := sh.OCI != nil && (kind == "oci-reopen-rw" || rng.IntN(2) == 0)
+	if tagRoots {
+		for _, rt := range g.Roots() {
+			if err := sh.OCI.Tag(ctx, g.Nodes[rt].Desc, fmt.Sprintf("root-%d", rt)); err != nil {
+				res.Violate("harness:populate", fmt.Sprintf("tag root %d: %v", rt, err), nil)
+				return res
+			}
+		}
+		res.Count("oci_sources_with_tagged_roots", 1)
 	}
 	srcTarget = sh.Target
 	if freshRepo {
@@ -339,6 +382,20 @@ func runCase(phase string, i int) worker.Result {
 			return res
 		}
 		srcTarget = s
+		if tagRoots && rng.IntN(3) != 0 {
+			// a garbage collection of the reopened layout (nothing is garbage: every root is tagged)
+			if err := s.GC(ctx); err != nil {
+				res.Violate("harness:gc", err.Error(), nil)
+				return res
+			}
+			for _, nd := range g.Nodes {
+				if ok, _ := s.Exists(ctx, nd.Desc); !ok {
+					res.Violate("harness:gc-removed-live-node", fmt.Sprintf("GC removed node %d although every root is tagged", nd.ID), g.Describe(g.Roots()...))
+					return res
+				}
+			}
+			res.Count("oci_sources_reopened_then_GC", 1)
+		}
 	case "oci-reopen-fs":
 		s, err := oci.NewFromFS(ctx, os.DirFS(sh.Dir))
 		if err != nil {
@@ -434,14 +491,14 @@ func runCase(phase string, i int) worker.Result {
 		}
 	}
 	witness := func() map[string]any {
-		return map[string]any{"source": kind, "api": api, "start": start, "depth": depth, "filter": f, "enriched_descriptors": enriched, "source_populated_concurrently": concurrentPopulation, "registry_profile": prof, "concurrency": conc, "prepopulated": prepop, "referrers_fault_injected": faultHit,
+		return map[string]any{"source": kind, "api": api, "src_ref": srcRef, "dst_ref": dstRef, "start": start, "depth": depth, "filter": f, "enriched_descriptors": enriched, "source_populated_concurrently": concurrentPopulation, "registry_profile": prof, "concurrency": conc, "prepopulated": prepop, "referrers_fault_injected": faultHit,
 			"dag": g.Describe(g.Roots()...), "push_order": order, "expected_exact": exact, "expected_upper": upper, "pushed": m.PushedNodes()}
 	}
 	cctx, cancel := context.WithTimeout(ctx, 4*time.Minute)
 	defer cancel()
 	var returned ocispec.Descriptor
 	if api == "ExtendedCopy" {
-		returned, err = oras.ExtendedCopy(cctx, ws, "start-tag", wd, "copied-tag", oras.ExtendedCopyOptions{ExtendedCopyGraphOptions: gopts})
+		returned, err = oras.ExtendedCopy(cctx, ws, srcRef, wd, dstRef, oras.ExtendedCopyOptions{ExtendedCopyGraphOptions: gopts})
 	} else {
 		err = oras.ExtendedCopyGraph(cctx, ws, wd, g.Nodes[start].Desc, gopts)
 	}
@@ -536,9 +593,13 @@ func runCase(phase string, i int) worker.Result {
 			res.Violate("wrong-node-returned", fmt.Sprintf("ExtendedCopy returned %s", gen.Key(returned)), witness())
 			return res
 		}
-		d, err := dh.Target.Resolve(ctx, "copied-tag")
+		effRef := dstRef
+		if effRef == "" {
+			effRef = srcRef
+		}
+		d, err := dh.Target.Resolve(ctx, effRef)
 		if err != nil || gen.Key(d) != gen.Key(g.Nodes[start].Desc) {
-			res.Violate("node-not-tagged", fmt.Sprintf("destination Resolve(copied-tag) = %v, %v", gen.Key(d), err), witness())
+			res.Violate("node-not-tagged", fmt.Sprintf("destination Resolve(%s) = %v, %v", effRef, gen.Key(d), err), witness())
 			return res
 		}
 	}
